@@ -32,6 +32,14 @@ impl<'a> R<'a> {
         } else if t < 64 {
             const TBL: [f64; 13] = [1.0, 2.0, 2.5, 3.0, 4.0, 5.0, 10.0, 0.1, 100.0, -1.0, -2.5, 85.18, 1e6];
             TBL[(t as usize - 12) % 13]
+        } else if t >= 248 {
+            // a raw 64-bit pattern taken verbatim from the input: lets the fuzzer's comparison tracing
+            // place constants the code compares against (thresholds, sentinels) into the data
+            let mut w = [0u8; 8];
+            for x in w.iter_mut() {
+                *x = self.u8();
+            }
+            f64::from_bits(u64::from_le_bytes(w))
         } else {
             let r = self.u16() as f64;
             let s = if t & 1 == 0 { 1.0 } else { -1.0 };
@@ -397,4 +405,19 @@ pub fn decode_c17(b: &[u8]) -> c17::Case {
         sv.push(last * 1.01);
     }
     c17::Case { cfg: Cfg { kind, p: vec![n], m: X(m) }, scalar, prefix, suffix: bars_from(&sv, &shape, None) }
+}
+
+// ---- C16: raw bit patterns straight from the input, so that libFuzzer's comparison tracing can feed
+// magic constants (a particular NaN payload, a sentinel) back into the values ----
+pub fn decode_c16(b: &[u8]) -> crate::props::c16::Case {
+    let mut calls = vec![];
+    let mut i = 0;
+    while i + 9 <= b.len() && calls.len() < 12 {
+        let id = b[i] % 5;
+        let mut w = [0u8; 8];
+        w.copy_from_slice(&b[i + 1..i + 9]);
+        calls.push((id, X(f64::from_bits(u64::from_le_bytes(w)))));
+        i += 9;
+    }
+    crate::props::c16::Case { calls }
 }
